@@ -31,7 +31,7 @@ PROPS = {
                      "distinct = distinct request text (hash-sharded, de-duplicated in the driver)"
                      " l2i ishapes: requests generated from the CURRENT interpreter grammar (every alternative of every instruction production x every table entry x every memory-operand alternative); l2 mixseq: mixed straight-line sequences over all instruction classes."
                      " l1 wordx: EVERY pair of word operands x both carry-ins for ADD/ADC/SUB/SBB/CMP (8 passes of 2^32 pairs in the thorough tier, one sixteenth of the first operands in the quick tier) is run through the real functions; pairs that disagree with a harness-side filter are handed to the model/spec verdict as ordinary requests (none on a correct tree)."),
-    "C02": dict(modules=["Emu8086.Props.C02"], runs=[("l1", "bits"), ("l2", "logic+shift"), ("l2i", "ishapes"), ("l2", "mixseq"), ("l3", "roles"), ("l1", "wordx_logic")], gen=["Arch"],
+    "C02": dict(modules=["Emu8086.Props.C02"], runs=[("l1", "bits"), ("l2", "logic+shift"), ("l2i", "ishapes"), ("l2", "mixseq"), ("l3", "roles"), ("l1", "wordx_logic"), ("l1", "wordx_shift")], gen=["Arch"],
                 rule="L1: all 256 byte values x all 256 counts x 2 flag words for the 7 shift/rotate functions; word values (lattice+random) x all 256 counts; "
                      "logic ops on all byte pairs and lattice/random word pairs; non-trivial = result or flags changed"
                      " l2i ishapes: requests generated from the CURRENT interpreter grammar (every alternative of every instruction production x every table entry x every memory-operand alternative); l2 mixseq: mixed straight-line sequences over all instruction classes."),
